@@ -1,88 +1,206 @@
+// Runner for C33: TRC payload validation (TRC.Validate, ValidateCert) on the
+// real pkg/scrypto/cppki code against Model/PKI.v, plus the Go-side
+// Encode -> DecodeTRC round trip of every valid payload.
 package main
 
 import (
-	"encoding/asn1"
+	"bytes"
+	"errors"
 	"fmt"
-	"math/big"
 
-	"github.com/scionproto/scion/pkg/scrypto/cms/protocol"
 	"github.com/scionproto/scion/pkg/scrypto/cppki"
 	"verifharness/internal/trcgen"
 	"verifharness/internal/vgen"
 )
 
-func voter(kind int, id int, ia trcgen.IA) trcgen.Cert {
-	n := trcgen.Name{ID: id, IA: ia}
-	return trcgen.Cert{EKUs: []int{kind}, TS: true, PathLen: -1, SigAlgOK: true, SKID: id, Subject: n, Issuer: n,
-		Serial: int64(id), NB: 1000, NA: 900000, Key: id}
+var sentinels = []struct {
+	err  error
+	code int
+}{
+	{cppki.ErrInvalidTRCVersion, 1}, {cppki.ErrInvalidID, 2}, {cppki.ErrInvalidValidityPeriod, 3},
+	{cppki.ErrGracePeriodNonZero, 4}, {cppki.ErrVotesOnBaseTRC, 5}, {cppki.ErrInvalidQuorumSize, 6},
+	{cppki.ErrNoASes, 7}, {cppki.ErrWildcardAS, 8}, {cppki.ErrDuplicateAS, 9},
+	{cppki.ErrUnclassifiedCertificate, 10}, {cppki.ErrInvalidCertType, 11},
+	{cppki.ErrNotEnoughVoters, 12}, {cppki.ErrCertForOtherISD, 14},
+	{cppki.ErrTRCValidityNotCovered, 15}, {cppki.ErrDuplicate, 16},
 }
-func root(id int, ia trcgen.IA) trcgen.Cert {
-	n := trcgen.Name{ID: id, IA: ia}
-	return trcgen.Cert{EKUs: []int{3}, CertSign: true, TS: true, BC: true, CA: true, PathLen: 1, SigAlgOK: true, SKID: id, Subject: n, Issuer: n,
-		Serial: int64(id), NB: 1000, NA: 900000, Key: id}
+
+// ValidateCode maps the error of TRC.Validate to the code of PKI.verr_code.
+func validateCode(err error) int {
+	if err == nil {
+		return 0
+	}
+	for _, s := range sentinels {
+		if errors.Is(err, s.err) {
+			return s.code
+		}
+	}
+	return 99
+}
+
+func sameTRC(a, b *cppki.TRC) string {
+	switch {
+	case a.Version != b.Version:
+		return "version"
+	case a.ID != b.ID:
+		return "id"
+	case !a.Validity.NotBefore.Equal(b.Validity.NotBefore) || !a.Validity.NotAfter.Equal(b.Validity.NotAfter):
+		return "validity"
+	case a.GracePeriod != b.GracePeriod:
+		return "grace period"
+	case a.NoTrustReset != b.NoTrustReset:
+		return "noTrustReset"
+	case fmt.Sprint(a.Votes) != fmt.Sprint(b.Votes) || len(a.Votes) != len(b.Votes):
+		return "votes"
+	case a.Quorum != b.Quorum:
+		return "quorum"
+	case fmt.Sprint(a.CoreASes) != fmt.Sprint(b.CoreASes) || len(a.CoreASes) != len(b.CoreASes):
+		return "core ASes"
+	case fmt.Sprint(a.AuthoritativeASes) != fmt.Sprint(b.AuthoritativeASes) ||
+		len(a.AuthoritativeASes) != len(b.AuthoritativeASes):
+		return "authoritative ASes"
+	case a.Description != b.Description:
+		return "description"
+	case len(a.Certificates) != len(b.Certificates):
+		return "number of certificates"
+	}
+	for i := range a.Certificates {
+		if !bytes.Equal(a.Certificates[i].Raw, b.Certificates[i].Raw) {
+			return fmt.Sprintf("certificate %d", i)
+		}
+	}
+	return ""
 }
 
 func main() {
+	run := vgen.Flags("C33")
+	run.Imports = []string{"Model.PKI"}
+	run.CheckFn = "PKI.check"
+	run.DiagFn = "PKI.diag"
+	run.CaseType = "PKI.case"
+	run.Scope = "Z"
+	run.ShardSize = 120
+	run.Rule = "certificates: well-formed certificates of the five classes with 0-2 of 27 mutations " +
+		"(usages, constraints, key ids, ISD-AS attributes), real x509 DER built per case, ValidateCert type compared; " +
+		"payloads: valid base/update TRCs over 3-8 certificates with 0, 1 or 2 of 30 mutations (23 aimed at one " +
+		"rule of TRC.Validate each, 7 at the accepting side of a boundary), verdict and sentinel error class compared; " +
+		"every accepted payload is encoded, decoded and compared field by field on the Go side; " +
+		"non-trivial = every payload case, and certificate cases that classify or were mutated"
+	rng := vgen.NewRand(run.Seed)
 	f := trcgen.NewFactory()
-	ia := trcgen.IA{Kind: 2, ISD: 1, AS: 0xff0000000110}
-	ia2 := trcgen.IA{Kind: 2, ISD: 1, AS: 0xff0000000111}
-	base := trcgen.TRC{Version: 1, ISD: 1, Base: 1, Serial: 1, NB: 2000, NA: 800000, Quorum: 1,
-		Core: []uint64{0xff0000000110}, Auth: []uint64{0xff0000000110},
-		Certs: []trcgen.Cert{voter(1, 1, ia), voter(2, 2, ia), root(3, ia)}}
-	t, _ := f.BuildTRC(base)
-	fmt.Println("validate base:", t.Validate())
-	for i, c := range t.Certificates {
-		ct, err := cppki.ValidateCert(c)
-		fmt.Println(i, ct, err)
+
+	// 1. certificates
+	nc := run.Count(300, 20000)
+	for i := 0; i < nc; i++ {
+		r := rng.Fork(uint64(i))
+		id := 1 + r.Intn(40)
+		isd := uint64(r.Range(1, 2))
+		n := trcgen.Name{ID: id, IA: trcgen.IA{Kind: 2, ISD: isd, AS: 0x100 + uint64(r.Intn(5))}}
+		iss := trcgen.Name{ID: 50 + r.Intn(5), IA: trcgen.IA{Kind: 2, ISD: isd, AS: 0x200}}
+		var c trcgen.Cert
+		cl := r.Intn(5)
+		switch cl {
+		case 0:
+			c = trcgen.Voter(1, n, int64(id), id, 0, 3600)
+		case 1:
+			c = trcgen.Voter(2, n, int64(id), id, 0, 3600)
+		case 2:
+			c = trcgen.RootCert(n, int64(id), id, 0, 3600)
+		case 3:
+			c = trcgen.CACert(n, iss, int64(id), id, 0, 3600)
+		default:
+			c = trcgen.ASCert(n, iss, int64(id), id, 0, 3600)
+		}
+		nm := vgen.Pick(r, 0, 1, 1, 1, 2)
+		var muts []string
+		for j := 0; j < nm; j++ {
+			var w string
+			c, w = trcgen.MutateCert(r, c, r.Intn(trcgen.CertMutations))
+			muts = append(muts, w)
+		}
+		if !run.Want() {
+			run.Skip()
+			continue
+		}
+		x, c := f.Build(c)
+		ct, err := cppki.ValidateCert(x)
+		code := int(ct)
+		if err != nil {
+			code = 0
+		}
+		run.Tally(fmt.Sprintf("cert:class%d-mut%d-type%d", cl, nm, code))
+		run.Add("cert", vgen.App("PKI.CCert", c.Gallina(), vgen.Z(int64(code))), c.Gallina(),
+			code != 0 || nm > 0, map[string]any{"class": cl, "mutations": muts, "impl_type": code})
 	}
-	// negative quorum
-	b2 := base
-	b2.Quorum = -1
-	t2, _ := f.BuildTRC(b2)
-	fmt.Println("validate quorum -1:", t2.Validate())
-	raw, err := t2.Encode()
-	fmt.Println("encode:", len(raw), err)
-	d, err := cppki.DecodeTRC(raw)
-	fmt.Println("decode:", d.Quorum, err)
-	// update with empty votes against quorum -1
-	s := b2
-	s.Serial = 2
-	s.Quorum = 1
-	st, _ := f.BuildTRC(s)
-	p, msg := vgen.Recover(func() { _, err := st.ValidateUpdate(&t2); fmt.Println("update err", err) })
-	fmt.Println("panic:", p, msg)
-	// same CN different IA in the same class
-	b3 := base
-	b3.Certs = []trcgen.Cert{voter(1, 1, ia), voter(2, 2, ia), root(3, ia), voter(2, 2, ia2)}
-	b3.Certs[3].Serial = 77
-	t3, _ := f.BuildTRC(b3)
-	fmt.Println("validate same-CN-other-IA:", t3.Validate())
-	fmt.Println(t3.Certificates[1].Subject.String(), "|", t3.Certificates[3].Subject.String())
-	fmt.Println(t3.Certificates[1].Subject.ToRDNSequence().String(), "|", t3.Certificates[3].Subject.ToRDNSequence().String())
-	// crafted SID: issuer ok, serial not an integer
-	rawb, _ := t.Encode()
-	dt, _ := cppki.DecodeTRC(rawb)
-	si := f.BuildSI(trcgen.SI{Kind: 1, Issuer: base.Certs[0].Issuer, Serial: 1, DigestOK: true, Key: 1}, rawb, base.Certs)
-	var seq struct {
-		Issuer asn1.RawValue
-		Serial asn1.RawValue
+
+	// 2. payloads
+	nt := run.Count(900, 60000)
+	for i := 0; i < nt; i++ {
+		r := rng.Fork(uint64(1000000 + i))
+		t := trcgen.GenTRC(r, uint64(r.Range(1, 3)), r.Chance(2, 5), trcgen.RandShape(r), 10*r.Intn(5))
+		var muts []string
+		nm := 0
+		switch {
+		case i < 2*trcgen.TRCMutations:
+			nm = 1
+		default:
+			nm = vgen.Pick(r, 0, 1, 1, 2, 2)
+		}
+		for j := 0; j < nm; j++ {
+			k := r.Intn(trcgen.TRCMutations)
+			if i < 2*trcgen.TRCMutations {
+				k = i % trcgen.TRCMutations // every single mutation at least twice in every run
+			}
+			var w string
+			t, w = trcgen.MutateTRC(r, t, k)
+			muts = append(muts, w)
+		}
+		if !run.Want() {
+			run.Skip()
+			continue
+		}
+		real, t := f.BuildTRC(t)
+		var verr error
+		id := -1
+		if p, msg := vgen.Recover(func() { verr = real.Validate() }); p {
+			id = run.Add("validate", vgen.App("PKI.CValidate", t.Gallina(), "98"), t.Gallina(), true,
+				map[string]any{"mutations": muts, "panic": msg})
+			run.Violate(id, "TRC.Validate panicked: "+msg, muts)
+			continue
+		}
+		code := validateCode(verr)
+		run.Tally(fmt.Sprintf("validate:mut%d-code%d", nm, code))
+		for _, m := range muts {
+			run.Tally("mutation:" + m[:min(len(m), 24)])
+		}
+		id = run.Add("validate", vgen.App("PKI.CValidate", t.Gallina(), vgen.Z(int64(code))), t.Gallina(),
+			true, map[string]any{"mutations": muts, "impl_code": code, "err": fmt.Sprint(verr),
+				"id": fmt.Sprintf("ISD%d-B%d-S%d", t.ISD, t.Base, t.Serial)})
+		if verr != nil {
+			continue
+		}
+		// Encode -> DecodeTRC round trip (implementation only; ASN.1 is not modelled)
+		raw, err := real.Encode()
+		if err != nil {
+			run.Violate(id, "valid TRC does not encode: "+err.Error(), muts, "roundtrip")
+			continue
+		}
+		dec, err := cppki.DecodeTRC(raw)
+		if err != nil {
+			run.Violate(id, "encoded valid TRC does not decode: "+err.Error(), muts, "roundtrip")
+			continue
+		}
+		if d := sameTRC(&real, &dec); d != "" {
+			run.Violate(id, "round trip changes "+d, muts, "roundtrip")
+			continue
+		}
+		raw2, err := dec.Encode()
+		if err != nil || !bytes.Equal(raw, raw2) || !bytes.Equal(dec.Raw, raw) {
+			run.Violate(id, "re-encoding the decoded TRC gives other bytes", muts, "roundtrip")
+			continue
+		}
+		run.Tally("roundtrip:ok")
 	}
-	_, err = asn1.Unmarshal(si.SID.FullBytes, &seq)
-	fmt.Println("sid parse", err)
-	bad := struct {
-		Issuer asn1.RawValue
-		Serial []byte
-	}{seq.Issuer, []byte{1}}
-	der, _ := asn1.Marshal(bad)
-	var rv asn1.RawValue
-	asn1.Unmarshal(der, &rv)
-	si2 := si
-	si2.SID = rv
-	_ = big.NewInt
-	signed := cppki.SignedTRC{TRC: dt, SignerInfos: []protocol.SignerInfo{si2}}
-	p, msg = vgen.Recover(func() { fmt.Println("verify crafted:", signed.Verify(nil)) })
-	fmt.Println("panic:", p, msg)
-	si3 := f.BuildSI(trcgen.SI{Kind: 1, Issuer: base.Certs[1].Issuer, Serial: 2, DigestOK: true, Key: 2}, rawb, base.Certs)
-	signed = cppki.SignedTRC{TRC: dt, SignerInfos: []protocol.SignerInfo{si, si3}}
-	fmt.Println("verify base:", signed.Verify(nil))
+	run.Extra("distinct_certificates_built", f.NumCerts())
+	run.Finish()
 }
